@@ -99,7 +99,14 @@ func (w *vhWorld) handedOutRelease(vs []Value) {
 	}
 }
 
-func VerifH_C18_clonepool_history() {
+func VerifH_C18_clonepool_history() { vhClonePoolHistory(false) }
+
+// the same histories starting from a pool in which both values are already
+// marked (with symbolic flags), so that short histories reach the states where
+// one value is pending (collected by the Go GC) while the other is still live
+func VerifH_C18_clonepool_history_both_marked() { vhClonePoolHistory(true) }
+
+func vhClonePoolHistory(premark bool) {
 	w := &vhWorld{pool: NewClonePool()}
 	saved := setFinalizer
 	setFinalizer = w.setFinalizer
@@ -111,6 +118,17 @@ func VerifH_C18_clonepool_history() {
 	n := 3
 	if verifTier() == 1 {
 		n = 4
+	}
+	if premark {
+		for i := 0; i < 2; i++ {
+			flags := MarkFlags(nondetByte("preflags")) & (Finalize | Release)
+			verifAssume(flags != 0)
+			w.pool.Mark(w.vals[i], flags)
+			w.wantFin[i], w.wantRel[i] = flags&Finalize != 0, flags&Release != 0
+			w.clock++
+			w.order[i] = w.clock
+		}
+		n--
 	}
 	for step := 0; step < n; step++ {
 		// one choice: {mark, drop, collect} x {value 0, value 1}, extract finalize, extract release
